@@ -35,7 +35,7 @@ func (e *Eng) binop(op token.Token, a, b Val, hook func(kind, cond string), reac
 			t = eq(o.C[0], "0")
 		default:
 			if len(a.C) != len(b.C) {
-				panic(fmt.Sprintf("binop ==: layout mismatch %v vs %v", a.T, b.T))
+				panic(evalError{msg: fmt.Sprintf("comparison of values of different shape (%v vs %v): the contract no longer fits the code", a.T, b.T)})
 			}
 			var ps []string
 			if _, ok := a.T.Underlying().(*types.Slice); ok {
